@@ -1092,6 +1092,12 @@ def c13(ctx):
             st = gotypes.stream_for(T, rnd, extras=True)
             v0 = gotypes.zero_vd(T)
             cases.append(case("C13", "unfold", "go", stream=st, sub=dict(T=T, V0=v0), origin="stream_for"))
+    # targets whose unfolding the user defines (gotype.Unfolders: primitive / state / processing functions; Expander),
+    # on their own and as field, element, map value and pointee; expected values from SFGoType!ExpUser
+    for T in gotypes.user_types():
+        for j in range(per * 3):
+            st = gotypes.stream_for(T, rnd, extras=True)
+            cases.append(case("C13", "unfold", "go", stream=st, sub=dict(T=T, V0=gotypes.zero_vd(T)), origin="user-defined unfolder"))
     # generic targets: every stream shape of GenEvents into interface{}
     for shape in gen_events(ctx, quick=True):
         if rnd.random() < (0.25 if ctx.quick else 1.0):
@@ -1131,7 +1137,8 @@ def c13(ctx):
     info = sum(1 for w in failed.values() if any(r.startswith("INFO:") for r in w))
     return run.decide(
         ctx, "TraceCodec", cases, tf, failed, nv, level_note="",
-        rule="targets: every struct/slice/map/pointer/interface type of the TLC-enumerated GenGoType programs (fresh zero variable); "
+        rule="targets: every struct/slice/map/pointer/interface type of the TLC-enumerated GenGoType programs (fresh zero variable), and "
+             "types with user-defined unfolders (SFGoType!ExpUser); "
              "streams: seeded well-formed object streams built along the target type (members for a random subset of fields under the "
              "naming rule, numbers of any width that fits, strings and keys by value and by reference, announced and unknown lengths) "
              "with extra unknown members of every value kind and nesting inserted at random positions, plus every TLC-enumerated stream "
@@ -1205,7 +1212,7 @@ def c14(ctx):
             seen.add(k)
             types.append(r["T"])
     rnd.shuffle(types)
-    types = types[: 500 if ctx.quick else 3000]
+    types = types[: 500 if ctx.quick else 3000] + gotypes.user_types()      # ... and targets with user-defined unfolders
     others = list(types)
     cases = []
     for n, T in enumerate(types):
@@ -1249,7 +1256,8 @@ def c14(ctx):
     failed, nv = core.tlc_validate(ctx, "TraceCodec", tf)
     return run.decide(
         ctx, "TraceCodec", cases, tf, failed, nv, level_note="",
-        rule="targets: the struct/slice/map/pointer/interface types of the TLC-enumerated GenGoType programs; streams (seeded): arbitrary "
+        rule="targets: the struct/slice/map/pointer/interface types of the TLC-enumerated GenGoType programs, and types with user-defined "
+             "unfolders (all three function forms of gotype.Unfolders and an Expander; alone, as field, element, map value, pointee); streams (seeded): arbitrary "
              "values (scalar for container, array for object, ...), documents built for OTHER types, matching documents, matching "
              "documents with one nested value (the first, and seeded others) replaced by null, and containers "
              "announcing 2^20, 2^28, 2^31, 2^62, 2^63-1 elements (top level and inside a matching member) without backing them; each is "
